@@ -1,1 +1,17 @@
+-- root of the library: everything the checks build
 import Inkayaku.Model.Util
+import Inkayaku.Model.ChessOps
+import Inkayaku.Model.SpecOps
+import Inkayaku.Model.SessionOps
+import Inkayaku.Model.Generate
+import Inkayaku.Props.C03
+import Inkayaku.Props.C04
+import Inkayaku.Props.C05
+import Inkayaku.Props.C10
+import Inkayaku.Props.C10Fifty
+import Inkayaku.Props.C11
+import Inkayaku.Props.C12
+import Inkayaku.Props.C15
+import Inkayaku.Props.C17
+import Inkayaku.Props.C18
+import Inkayaku.Props.C19
